@@ -154,6 +154,7 @@ VALUE_CONFIGS = {
         "M": (4, 1, 1, 2, 1, "core", False),
         "T": (2, 1, 1, 2, 1, "types", False, 1),
         "U": (2, 0, 1, 2, 2, "tcore", False),
+        "W": (2, 1, 1, 2, 2, "state", False, 1),
     },
     "thorough": {
         "N": (2, 2, 2, 2, 1, "vals", False, 1),
@@ -161,11 +162,13 @@ VALUE_CONFIGS = {
         "D": (3, 2, 2, 2, 1, "core", False),      # the core nested two levels deep
         "T": (2, 1, 1, 2, 1, "types", False),
         "U": (3, 0, 1, 2, 3, "tcore", False),
+        "W": (3, 1, 1, 2, 2, "state", False),
     },
     "selftest": {
         "N": (2, 1, 1, 2, 1, "vals", False, 1),
         "M": (3, 1, 1, 2, 1, "core", False),
         "T": (2, 1, 1, 2, 1, "types", False, 1),
+        "W": (2, 1, 1, 2, 1, "state", False, 1),
     },
 }
 SIM_CONFIGS = {"S": (9, 5, 3, 3, 4, "mixed", False)}
@@ -398,6 +401,26 @@ def stock_render(src: str, cid: Any = 0) -> str:
     return e["stock"][key]
 
 
+NTH_SEP = "\x1f"
+
+
+def stock_nth(src: str, k: int) -> List[str]:
+    """What stock Django renders for `src` in the 1st, 2nd, .. iteration of {% for it in its %} within ONE
+    render with context k (plain Lexer + Parser behind the same {% load %})."""
+    e = env()
+    key = ("nth", src, k)
+    if key not in e["stock"]:
+        from django.template import Context
+        from django.template.base import Lexer, Parser
+        var, over = e["loop"]
+        full = e["preamble"] + "{% for " + var + " in " + over + " %}" + src + NTH_SEP + "{% endfor %}"
+        p = Parser(Lexer(full).tokenize(), libraries=e["engine"].template_libraries, builtins=e["engine"].template_builtins)
+        c = Context(dict(e["cx"][k]))
+        with c.bind_template(_dummy_template()):
+            e["stock"][key] = p.parse().render(c).split(NTH_SEP)[:-1]
+    return e["stock"][key]
+
+
 def value_of(v: Dict[str, Any], cid: Any = 0) -> Any:
     """Expected Python value of a Denote result (leaves valued by stock Django in context cid)."""
     t = v["t"]
@@ -406,6 +429,10 @@ def value_of(v: Dict[str, Any], cid: Any = 0) -> Any:
     if t == "leaf":
         return stock_leaf("".join(v["e"]), cid)
     if t == "render":
+        return stock_render("".join(v["e"]), cid)
+    if t == "nthrender":      # stateful string: evaluation i of render k -> the i-th rendering within one stock render
+        if isinstance(cid, tuple):
+            return stock_nth("".join(v["e"]), cid[0])[cid[1]]
         return stock_render("".join(v["e"]), cid)
     if t == "list":
         out: List[Any] = []
@@ -465,8 +492,9 @@ def same(a: Any, b: Any) -> bool:
 
 
 # ------------------------------------------------------------------ real code
-def source(path: str, text: str, slash: bool, loop: bool = False) -> str:
-    """{% load .. %} of the specification's libraries, then the tag (loop: inside {% for it in its %})."""
+def source(path: str, text: str, slash: bool, loop: bool = False, copies: int = 1) -> str:
+    """{% load .. %} of the specification's libraries, then the tag (loop: inside {% for it in its %});
+    copies: that many tags with the same text one after the other (each in its own loop)."""
     e = env()
     if path == "probe":
         tag = "{% " + PROBE_TAG + " " + text + " %}" + ("" if slash else "B{% end" + PROBE_TAG + " %}")
@@ -479,13 +507,14 @@ def source(path: str, text: str, slash: bool, loop: bool = False) -> str:
     if loop:
         var, over = e["loop"]
         tag = "{% for " + var + " in " + over + " %}" + tag + "{% endfor %}"
-    return e["preamble"] + tag + "T"
+    return e["preamble"] + tag * copies + "T"
 
 
 WANT_OUT = {"probe": "[P]", "comp": "[C]", "short": "[H]", "slot": "[S]"}
 
 
-def observe_runs(path: str, text: str, slash: bool, runs: List[Any], loop: bool = False) -> List[List[Dict[str, Any]]]:
+def observe_runs(path: str, text: str, slash: bool, runs: List[Any], loop: bool = False,
+                 copies: int = 1) -> List[List[Dict[str, Any]]]:
     """Compile the text inside the receiver `path` ONCE and render that compiled template once per
     context id in `runs` (loop: the tag stands in {% for it in its %}).  -> per run, per evaluation
     of the tag (one, or one per loop item): {"o": "values", args, kwargs, flags} | {"o": "tse"} |
@@ -493,14 +522,14 @@ def observe_runs(path: str, text: str, slash: bool, runs: List[Any], loop: bool 
     from django.template import Context, Template, TemplateSyntaxError
     e = env()
     rec = e["rec"]
-    src = source(path, text, slash, loop)
+    src = source(path, text, slash, loop, copies)
 
     def failed(ex, n):
         o = "tse" if isinstance(ex, TemplateSyntaxError) else "exc:" + type(ex).__name__
         return [{"o": o, "msg": str(ex)[:200]} for _ in range(n)]
 
     def evals(cid):
-        return len(e["cx"][cid][e["loop"][1]]) if loop else 1
+        return (len(e["cx"][cid][e["loop"][1]]) if loop else 1) * copies
     tpl = host = None
     try:
         if path == "slot":
@@ -551,8 +580,22 @@ def show(obs: Dict[str, Any]) -> Dict[str, Any]:
     return d
 
 
+def together_plan(forms: List[Dict[str, Any]], full: bool, first: bool) -> List[Tuple[str, int, bool]]:
+    """Which templates with several same-text tags (TagArgs!TogetherForms) a layout is replayed in:
+    lists over the stateful alphabet (full) in every form on the probe and the component tag in every
+    layout; the others in their first layout - probe tag: the first form, component tag: the second."""
+    if not forms:
+        return []
+    if full:
+        return [(p, f["n"], f["loop"]) for p in ("probe", "comp") for f in forms]
+    if not first:
+        return []
+    return [("probe", forms[0]["n"], forms[0]["loop"]), ("comp", forms[1 % len(forms)]["n"], forms[1 % len(forms)]["loop"])]
+
+
 def check_case(case: Dict[str, Any], styles: List[Dict[str, Any]], sfrom: int,
-               pick: Optional[List[int]] = None, form: Optional[bool] = None) -> List[Dict[str, Any]]:
+               pick: Optional[List[int]] = None, form: Optional[bool] = None,
+               forms: Optional[List[Dict[str, Any]]] = None, full: bool = False) -> List[Dict[str, Any]]:
     """Replay one exported case under the exported styles (`pick`: positions in case["texts"],
     default all); -> list of failures.  Every compiled template is rendered more than once:
     in the first replayed layout (form True) the probe tag stands in {% for it in its %} and is
@@ -590,10 +633,16 @@ def check_case(case: Dict[str, Any], styles: List[Dict[str, Any]], sfrom: int,
         plan = [("probe", both, first and can_loop), ("comp", both if first else [0], False)]
         if first:      # (the shorthand tag differs from the component tag in how its NAME is found: one context)
             plan += [("short", [0], False)] + ([("slot", both, False)] if case.get("slot") else [])
-        for path, runs, loop in plan:
-            res = observe_runs(path, text, st["slash"], runs, loop)
+        plan = [(p, r, lp, 1) for p, r, lp in plan]
+        if not case["invalid"]:     # several tags with the same text in one template: each denotes what it does alone
+            plan += [(p, both, lp and can_loop, n) for p, n, lp in together_plan(forms or [], full, first)
+                     if can_loop or not lp]
+        for path, runs, loop, copies in plan:
+            res = observe_runs(path, text, st["slash"], runs, loop, copies)
             for k, obss in zip(runs, res):
-                for i, obs in enumerate(obss):
+                per = len(obss) // copies
+                for ii, obs in enumerate(obss):
+                    i = ii % per
                     cid = (k, i) if loop else k
                     if compare(obs, [outcome], exp(k, cid), path):
                         continue
@@ -601,7 +650,7 @@ def check_case(case: Dict[str, Any], styles: List[Dict[str, Any]], sfrom: int,
                         fails.append({"zone": "ws-before-literal-spread-operand"})
                         continue
                     key = None
-                    for dev in (case.get("devs", []) if k == 0 else []):   # deviations are stated for Ctx
+                    for dev in (case.get("devs", []) if k == 0 and copies == 1 else []):   # deviations are stated for Ctx
                         if path not in dev["paths"]:
                             continue
                         dexp = expected_call(dev["expect"], cid) if "values" in dev["outcomes"] else None
@@ -609,7 +658,8 @@ def check_case(case: Dict[str, Any], styles: List[Dict[str, Any]], sfrom: int,
                             key = dev["name"]
                             break
                     fails.append({"path": path, "style": sfrom + j, "text": text, "key": key, "form": first,
-                                  "render": {"ctx": k + 1, "loop_item": i + 1 if loop else None},
+                                  "render": {"ctx": k + 1, "loop_item": i + 1 if loop else None,
+                                             "tags_in_template": copies, "tag": ii // per + 1},
                                   "expected": {"o": outcome, "call": repr(exp(k, cid))}, "observed": show(obs)})
     return fails
 
@@ -684,7 +734,7 @@ def export_cases(tier: str, w: Path, with_props: bool = True, sim: bool = False,
             ex.shutdown(wait=True)
     if lazy_props:
         # the small exports first: their replay overlaps with the TLC runs that are still going on
-        first = ("T", "U", "M", "N", "S", "D", "I", "V", "A", "R")
+        first = ("W", "T", "U", "M", "N", "S", "D", "I", "V", "A", "R")
         order = [n for n in first if n in futs] + [n for n in futs if n not in first]
         return ((n, one(n)) for n in order), props
     try:
@@ -732,7 +782,8 @@ def _work(chunk):
     out = []
     h = _W["header"]
     for idx, case in chunk:
-        out.append((idx, check_case(case, h["styles"], h["from"], picks(idx, len(case["texts"]), _W["k"]))))
+        out.append((idx, check_case(case, h["styles"], h["from"], picks(idx, len(case["texts"]), _W["k"]),
+                                    forms=h.get("together"), full=h.get("alpha") == "state")))
     return out
 
 
@@ -761,6 +812,7 @@ def replay_cases(chk: Check, header, cases, label: str, procs: int, k: Optional[
                                "style": f["style"], "path": f["path"], "text": f["text"], "form": f["form"],
                                "render": f["render"], "slash": header["styles"][f["style"] - 1]["slash"],
                                "slot": bool(case.get("slot")),
+                               "together": header.get("together"), "full": header.get("alpha") == "state",
                                "hdr": {x: header[x] for x in HDR_KEYS if x in header},
                                "expect": case["expect"], "expects": case.get("expects"), "devs": case.get("devs", [])},
                               {"expected": f["expected"], "observed": f["observed"]}, key=f["key"])
@@ -774,6 +826,14 @@ def replay_cases(chk: Check, header, cases, label: str, procs: int, k: Optional[
     chk.add("real_renders", 5 * len(cases) + 2 * nslot + 3 * (ntexts - len(cases)))
     chk.add("tag_evaluations", 7 * len(cases) + 2 * nslot + 3 * (ntexts - len(cases)))
     chk.add("second_context_renders", 2 * len(cases) + nslot + (ntexts - len(cases)))
+    # templates that hold several tags with the same argument text (TagArgs!TogetherForms), two renders each
+    forms, full = header.get("together") or [], header.get("alpha") == "state"
+    nvalid = sum(1 for c in cases if not c["invalid"])
+    nvtexts = sum(len(picks(i, len(c["texts"]), k)) for i, c in enumerate(cases) if not c["invalid"])
+    ntog = (nvtexts * 2 * len(forms) if full else nvalid * 2) if forms else 0
+    chk.add("same_text_tags_templates", ntog)
+    chk.add("compiled_templates", ntog)
+    chk.add("real_renders", 2 * ntog)
 
 
 def nontrivial(case) -> bool:
@@ -866,7 +926,7 @@ class Gen:
     def __init__(self, rnd: random.Random, header: Dict[str, Any]):
         self.r = rnd
         self.nstr = len(header["strtab"])
-        self.ntpl = len(header["tpltab"])
+        self.ntpl = len(header["tpltab"]) - len(header.get("stateful", []))      # (the stateful strings come last)
         self.tpltab = header["tpltab"]
         self.ctx = header["ctx"]
         self.ctxs = header.get("ctxs") or [header["ctx"]]
@@ -1397,7 +1457,8 @@ def replay(path: str) -> int:
                 "expects": case.get("expects"), "devs": case.get("devs", []), "lenient": [False],
                 "slot": case.get("slot", case["path"] == "slot")}
         styles = [{"slash": case.get("slash", case["text"].rstrip().endswith("/"))}]
-        fails = [f for f in check_case(fake, styles, 1, form=case.get("form")) if f.get("path") == case["path"]]
+        fails = [f for f in check_case(fake, styles, 1, form=case.get("form"), forms=case.get("together"),
+                                       full=bool(case.get("full"))) if f.get("path") == case["path"]]
         print(json.dumps({"text": case["text"], "path": case["path"], "failures": fails}, indent=1, default=repr))
         return 1 if fails else 0
     if kind == "trace":
